@@ -297,19 +297,29 @@ impl ChannelHandler {
 // ------------------------------------------------ SignRemoteCommitmentTx2
 //@fn vls-protocol-signer/src/handler.rs :: impl Handler for ChannelHandler :: do_handle closure=1 after="Message::SignRemoteCommitmentTx2\(m\) =>" as=sign_remote_commitment_tx2_closure props=C03,C04
 //@sig fn sign_remote_commitment_tx2_closure(&self, chan: &mut VxChan, m: &SignRemoteCommitmentTx2, remote_per_commitment_point: PublicKey, commit_num: u64, feerate_sat_per_kw: u32, offered_htlcs: &Vec<HTLCInfo2>, received_htlcs: &Vec<HTLCInfo2>) -> (r: Result<(Signature, Vec<Signature>), Status>)
+    // what holds of the captured variables where the closure is created (a proof obligation at the with_channel expression of the arm):
+    // whether the closure reads the message or the local copied from it makes no difference
+    requires self.sign_remote2_captured(*m, remote_per_commitment_point, commit_num, feerate_sat_per_kw, offered_htlcs@, received_htlcs@),
     ensures
-        chan_signed_cp2(old(chan)@, remote_per_commitment_point, commit_num, feerate_sat_per_kw, m.to_local_value_sat, m.to_remote_value_sat,
-            offered_htlcs@, received_htlcs@, r, final(chan)@),                                                       //[C04.handler.sign-remote2-closure-one-call-with-the-captured-values]
+        chan_signed_cp2(old(chan)@, key_of_wire(m.remote_per_commitment_point), m.commitment_number, m.feerate, m.to_local_value_sat, m.to_remote_value_sat,
+            htlcs_offered_by_peer(m.htlcs.v@), htlcs_offered_by_node(m.htlcs.v@), r, final(chan)@),                   //[C04.handler.sign-remote2-closure-one-call-with-the-captured-values]
 //@sub /offered_htlcs\.clone\(\)/ => vx_clone_htlcs(offered_htlcs)
 //@sub /received_htlcs\.clone\(\)/ => vx_clone_htlcs(received_htlcs)
 //@end
 
-    // `self.node.with_channel(&self.channel_id, CLOSURE)` of the arm, CLOSURE = the function above (arguments = the variables it captures)
+    pub open spec fn sign_remote2_captured(&self, m: SignRemoteCommitmentTx2, point: PublicKey, n: u64, feerate: u32, offered: Seq<HTLCInfo2>, received: Seq<HTLCInfo2>) -> bool {
+        point == key_of_wire(m.remote_per_commitment_point) && n == m.commitment_number && feerate == m.feerate
+        && offered == htlcs_offered_by_peer(m.htlcs.v@) && received == htlcs_offered_by_node(m.htlcs.v@)
+    }
+    // `self.node.with_channel(&self.channel_id, CLOSURE)` of the arm, CLOSURE = the function above (arguments = the variables it captures;
+    // precondition = the closure's precondition, postcondition = the closure's on the channel registered under self.channel_id)
     #[verifier::external_body]
     pub fn vx_with_channel_sign_remote2(&self, m: &SignRemoteCommitmentTx2, remote_per_commitment_point: PublicKey, commit_num: u64, feerate_sat_per_kw: u32,
         offered_htlcs: &Vec<HTLCInfo2>, received_htlcs: &Vec<HTLCInfo2>) -> (r: Result<(Signature, Vec<Signature>), Status>)
+        requires self.sign_remote2_captured(*m, remote_per_commitment_point, commit_num, feerate_sat_per_kw, offered_htlcs@, received_htlcs@),
         ensures r.is_ok() ==> exists|c0: VxChanView, c1: VxChanView| node_channel(self.node, self.channel_id, c0)
-            && #[trigger] chan_signed_cp2(c0, remote_per_commitment_point, commit_num, feerate_sat_per_kw, m.to_local_value_sat, m.to_remote_value_sat, offered_htlcs@, received_htlcs@, r, c1)
+            && #[trigger] chan_signed_cp2(c0, key_of_wire(m.remote_per_commitment_point), m.commitment_number, m.feerate, m.to_local_value_sat, m.to_remote_value_sat,
+                htlcs_offered_by_peer(m.htlcs.v@), htlcs_offered_by_node(m.htlcs.v@), r, c1)
     { unimplemented!() }
 
 //@fn vls-protocol-signer/src/handler.rs :: impl Handler for ChannelHandler :: do_handle arm="Message::SignRemoteCommitmentTx2\(m\)" as=arm_sign_remote_commitment_tx2 props=C03,C04,C06,C05
@@ -381,11 +391,11 @@ impl ChannelHandler {
 
 //@fn vls-protocol-signer/src/handler.rs :: impl Handler for ChannelHandler :: do_handle closure=2 after="Message::ValidateCommitmentTx2\(m\) =>" as=validate_commitment_tx2_closure props=C01
 //@sig fn validate_commitment_tx2_closure(&self, chan: &mut VxChan, m: &ValidateCommitmentTx2, commit_num: u64, feerate_sat_per_kw: u32, offered_htlcs: &Vec<HTLCInfo2>, received_htlcs: &Vec<HTLCInfo2>, commit_sig: Signature, htlc_sigs: Vec<Signature>) -> (r: Result<(PublicKey, Option<SecretKey>), Status>)
-    requires commit_num < u64::MAX,
+    requires m.commitment_number < u64::MAX, self.validate2_captured(*m, commit_num, feerate_sat_per_kw, offered_htlcs@, received_htlcs@, commit_sig, htlc_sigs@),
     ensures
-        r.is_ok() ==> exists|mid: VxChanView| #[trigger] chan_validated_holder(old(chan)@, commit_num, feerate_sat_per_kw, m.to_local_value_sat, m.to_remote_value_sat,
-                offered_htlcs@, received_htlcs@, commit_sig, htlc_sigs@, mid)
-            && (r->Ok_0.1.is_some() ==> self.protocol_version < PROTOCOL_VERSION_REVOKE && chan_revoked(mid, commit_num, r, final(chan)@)),
+        r.is_ok() ==> exists|mid: VxChanView| #[trigger] chan_validated_holder(old(chan)@, m.commitment_number, m.feerate, m.to_local_value_sat, m.to_remote_value_sat,
+                htlcs_offered_by_node(m.htlcs.v@), htlcs_offered_by_peer(m.htlcs.v@), sig_of_wire(m.signature.signature), sigs_of_wire(m.htlc_signatures.v@), mid)
+            && (r->Ok_0.1.is_some() ==> self.protocol_version < PROTOCOL_VERSION_REVOKE && chan_revoked(mid, m.commitment_number, r, final(chan)@)),
 //@sub /offered_htlcs\.clone\(\)/ => vx_clone_htlcs(offered_htlcs)
 //@sub /received_htlcs\.clone\(\)/ => vx_clone_htlcs(received_htlcs)
 //@end
@@ -398,11 +408,16 @@ impl ChannelHandler {
             && #[trigger] chan_validated_holder(c0, n, feerate, to_local, to_remote, offered, received, sig, htlc_sigs, mid)
             && (r->Ok_0.1.is_some() ==> self.protocol_version < PROTOCOL_VERSION_REVOKE && exists|c1: VxChanView| #[trigger] chan_revoked(mid, n, r, c1))
     }
+    pub open spec fn validate2_captured(&self, m: ValidateCommitmentTx2, n: u64, feerate: u32, offered: Seq<HTLCInfo2>, received: Seq<HTLCInfo2>, sig: Signature, htlc_sigs: Seq<Signature>) -> bool {
+        n == m.commitment_number && feerate == m.feerate && offered == htlcs_offered_by_node(m.htlcs.v@) && received == htlcs_offered_by_peer(m.htlcs.v@)
+        && sig == sig_of_wire(m.signature.signature) && htlc_sigs == sigs_of_wire(m.htlc_signatures.v@)
+    }
     #[verifier::external_body]
     pub fn vx_with_channel_validate2(&self, m: &ValidateCommitmentTx2, commit_num: u64, feerate_sat_per_kw: u32, offered_htlcs: &Vec<HTLCInfo2>, received_htlcs: &Vec<HTLCInfo2>,
         commit_sig: Signature, htlc_sigs: &Vec<Signature>) -> (r: Result<(PublicKey, Option<SecretKey>), Status>)
-        requires commit_num < u64::MAX,
-        ensures r.is_ok() ==> self.validate2_done(commit_num, feerate_sat_per_kw, m.to_local_value_sat, m.to_remote_value_sat, offered_htlcs@, received_htlcs@, commit_sig, htlc_sigs@, r)
+        requires m.commitment_number < u64::MAX, self.validate2_captured(*m, commit_num, feerate_sat_per_kw, offered_htlcs@, received_htlcs@, commit_sig, htlc_sigs@),
+        ensures r.is_ok() ==> self.validate2_done(m.commitment_number, m.feerate, m.to_local_value_sat, m.to_remote_value_sat, htlcs_offered_by_node(m.htlcs.v@), htlcs_offered_by_peer(m.htlcs.v@),
+            sig_of_wire(m.signature.signature), sigs_of_wire(m.htlc_signatures.v@), r)
     { unimplemented!() }
 
 //@fn vls-protocol-signer/src/handler.rs :: impl Handler for ChannelHandler :: do_handle arm="Message::ValidateCommitmentTx2\(m\)" as=arm_validate_commitment_tx2 props=C01,C06,C05
@@ -421,7 +436,7 @@ impl ChannelHandler {
 //@sub /(?s)Ok\(Box::new\(msgs::ValidateCommitmentTxReply \{\s*next_per_commitment_point: (.*?),\s*old_commitment_secret: (\w+),\s*\}\)\)/ => Ok(vx_reply_validate_commitment(\1, \2))
 //@sub /extract_htlcs\(&m\.htlcs\)/ => extract_htlcs(m.htlcs.v.as_slice())
 //@sub /let htlc_sigs: Vec<_> =/ => let htlc_sigs: Vec<Signature> =
-//@proof before /let old_secret_reply/
+//@proof before /let \(next_per_commitment_point, old_secret\) =/
         proof { assert(htlc_sigs@ =~= sigs_of_wire(m.htlc_signatures.v@)); }
 //@end
 
@@ -450,20 +465,23 @@ impl ChannelHandler {
 //@sub /(?s)self\.node\.with_channel\(&self\.channel_id, \|chan\| \{.*?\n\s*\}\)\?;/ => self.vx_with_channel_revoke(commit_num)?;
 // (rewrite R22 has turned `old_secret.map(|s| DisclosedSecret(..))` into a match before this rule applies)
 //@sub /\(match old_secret \{ Some\(s\) => Some\(DisclosedSecret\(s\[\.\.\]\.try_into\(\)\.vx_expect\(\)\)\), None => None \}\)/ => vx_disclose(old_secret)
-//@sub /(?s)Ok\(Box::new\(msgs::RevokeCommitmentTxReply \{\s*next_per_commitment_point,\s*old_commitment_secret,\s*\}\)\)/ => Ok(vx_reply_revoke_commitment(next_per_commitment_point, old_commitment_secret))
+// (field shorthand: the two fields are named after the locals, in either order)
+//@sub /(?s)Ok\(Box::new\(msgs::RevokeCommitmentTxReply \{\s*(?:next_per_commitment_point,\s*old_commitment_secret|old_commitment_secret,\s*next_per_commitment_point),?\s*\}\)\)/ => Ok(vx_reply_revoke_commitment(next_per_commitment_point, old_commitment_secret))
 //@end
 
 // ------------------------------------------------ SignMutualCloseTx2
 //@fn vls-protocol-signer/src/handler.rs :: impl Handler for ChannelHandler :: do_handle closure=1 after="Message::SignMutualCloseTx2\(m\) =>" as=sign_mutual_close_tx2_closure props=C07,C02
 //@sig fn sign_mutual_close_tx2_closure(&self, chan: &mut VxChan, m: &SignMutualCloseTx2, local_wallet_path_hint: VxPath) -> (r: Result<Signature, Status>)
+    requires local_wallet_path_hint == path_of_hint(m.local_wallet_path_hint),        // holds where the closure is created (obligation at the arm's with_channel expression)
     ensures chan_signed_mutual_close2(old(chan)@, m.to_local_value_sat, m.to_remote_value_sat, script_opt_of(m.local_script), script_opt_of(m.remote_script),
-        local_wallet_path_hint, r, final(chan)@),                                                                                  //[C07.handler.close2-closure-one-call-holder-values-and-script-first]
+        path_of_hint(m.local_wallet_path_hint), r, final(chan)@),                                                                                  //[C07.handler.close2-closure-one-call-holder-values-and-script-first]
 //@end
 
     #[verifier::external_body]
     pub fn vx_with_channel_close2(&self, m: &SignMutualCloseTx2, local_wallet_path_hint: VxPath) -> (r: Result<Signature, Status>)
+        requires local_wallet_path_hint == path_of_hint(m.local_wallet_path_hint),
         ensures r.is_ok() ==> exists|c0: VxChanView, c1: VxChanView| node_channel(self.node, self.channel_id, c0)
-            && #[trigger] chan_signed_mutual_close2(c0, m.to_local_value_sat, m.to_remote_value_sat, script_opt_of(m.local_script), script_opt_of(m.remote_script), local_wallet_path_hint, r, c1)
+            && #[trigger] chan_signed_mutual_close2(c0, m.to_local_value_sat, m.to_remote_value_sat, script_opt_of(m.local_script), script_opt_of(m.remote_script), path_of_hint(m.local_wallet_path_hint), r, c1)
     { unimplemented!() }
 
 //@fn vls-protocol-signer/src/handler.rs :: impl Handler for ChannelHandler :: do_handle arm="Message::SignMutualCloseTx2\(m\)" as=arm_sign_mutual_close_tx2 props=C07,C02
